@@ -1,0 +1,48 @@
+//! Verification hooks. Compiled only with `--cfg pasfmt_verif`; never part of a normal build.
+//!
+//! A thread-local recorder of the parser's line-building primitives, drained by an external
+//! harness that replays them through an independent model of those primitives.
+use std::cell::RefCell;
+
+#[derive(Debug, Clone, PartialEq, Eq)]
+pub enum ParserOp {
+    PassStart(Vec<usize>),
+    PassEnd,
+    Next,
+    Skip,
+    /// `finish_logical_line` on an empty current line
+    FinishEmpty,
+    /// `finish_logical_line` with the (parent, level) computed from the context stack
+    Finish(Option<(usize, usize)>, u16),
+    MarkUnfinished,
+    PushLine(usize, usize),
+    PopLine,
+    PushLast,
+    PopLast,
+    SetType(String),
+    /// head of a parser loop (`op_until` and the explicit loops), with the pass index at that time
+    Loop(u32, usize),
+}
+
+thread_local! {
+    static TRACE: RefCell<Option<Vec<ParserOp>>> = const { RefCell::new(None) };
+}
+
+/// Start recording on this thread (discarding any previous recording).
+pub fn start() {
+    TRACE.with(|t| *t.borrow_mut() = Some(Vec::new()));
+}
+
+/// Stop recording and return what was recorded.
+pub fn take() -> Vec<ParserOp> {
+    TRACE.with(|t| t.borrow_mut().take().unwrap_or_default())
+}
+
+#[inline]
+pub fn op(op: ParserOp) {
+    TRACE.with(|t| {
+        if let Some(v) = t.borrow_mut().as_mut() {
+            v.push(op);
+        }
+    });
+}
